@@ -54,4 +54,27 @@ example : absFamily (([.setName [109], .setHelp [104], .setType .gauge, .setMetr
     = ([.setName [109], .setHelp [104], .setType .gauge, .setMetric [[.setLabel [⟨some [97], some [49]⟩], .setGaugeValue 5]]] : List FamilyOp).foldl QFamily.apply {} :=
   render_agree _
 
+/-- **timestamp_read_agrees** — the timestamp both builds read back from a metric built by the same
+    calls is the same number (`gather`'s tie-break between samples of equal label values reads it
+    through `timestamp_ms()`, which exists in both data models) -/
+theorem timestamp_read_agrees (ops : List MetricOp) :
+    (buildP ops).timestampMs.getD 0 = (buildQ ops).timestampMs := by
+  have h := build_agree ops
+  have h2 := congrArg QMetric.timestampMs h
+  simpa [absMetric] using h2
+
+/-- **timestamp_presence_not_observable** — a timestamp explicitly set to 0 and one never set read
+    alike: the protobuf-backed metric keeps the difference (`Some 0` vs `None`), the plain one cannot,
+    and the abstraction both builds are compared through identifies them. Code that consults the
+    presence bit (`has_timestamp_ms`) therefore does not factor through the common reading and may
+    make the builds differ — the two-build scenario exercises exactly this pair. -/
+theorem timestamp_presence_not_observable (m : PMetric) (h : m.timestampMs = none) :
+    absMetric (m.apply (.setTimestamp 0)) = absMetric m ∧
+      (m.apply (.setTimestamp 0)).timestampMs ≠ m.timestampMs ∧
+      ((absMetric m).apply (.setTimestamp 0)) = absMetric m := by
+  refine ⟨?_, ?_, ?_⟩
+  · simp [absMetric, PMetric.apply, h]
+  · simp [PMetric.apply, h]
+  · simp [absMetric, QMetric.apply, h]
+
 end Prom.C16
